@@ -292,9 +292,12 @@ class QubitHamiltonian(QubitOperator):
         # Raise error if attributes are not the same across Hamiltonians. This
         # check is ignored if comparing to a QubitOperator or a bare
         # QubitHamiltonian.
+        if isinstance(other_hamiltonian, of.QubitOperator) and not isinstance(other_hamiltonian, QubitHamiltonian):
+            # A plain QubitOperator carries no mapping information: it takes the attributes of self
+            other_hamiltonian = qubitop_to_qubitham(other_hamiltonian, self.mapping, self.up_then_down)
         if self.mapping is not None and self.up_then_down is not None and \
-                                other_hamiltonian.mapping is not None and \
-                                other_hamiltonian.up_then_down is not None:
+                                getattr(other_hamiltonian, "mapping", None) is not None and \
+                                getattr(other_hamiltonian, "up_then_down", None) is not None:
 
             if self.mapping.upper() != other_hamiltonian.mapping.upper():
                 raise RuntimeError("Mapping must be the same for all QubitHamiltonians.")
@@ -308,8 +311,8 @@ class QubitHamiltonian(QubitOperator):
         # Additional checks for == operator. This check is ignored if comparing
         # to a QubitOperator or a bare QubitHamiltonian.
         if self.mapping is not None and self.up_then_down is not None and \
-                                other_hamiltonian.mapping is not None and \
-                                other_hamiltonian.up_then_down is not None:
+                                getattr(other_hamiltonian, "mapping", None) is not None and \
+                                getattr(other_hamiltonian, "up_then_down", None) is not None:
             if (self.mapping.upper() != other_hamiltonian.mapping.upper()) or (self.up_then_down != other_hamiltonian.up_then_down):
                 return False
 
